@@ -394,24 +394,47 @@ func runC12(c *Ctx) {
 			fn := p.Fn(ipv4, name)
 			found := false
 			var level, opt int64 = -1, -1
-			eachInstr(fn, func(in ssa.Instruction) {
-				call, ok := in.(*ssa.Call)
-				if !ok || call.Call.StaticCallee() == nil || call.Call.StaticCallee().Pkg == nil || call.Call.StaticCallee().Pkg.Pkg.Path() != "syscall" {
-					return
-				}
-				cn := call.Call.StaticCallee().Name()
-				a := call.Call.Args
-				switch {
-				case strings.HasPrefix(cn, "Setsockopt") || strings.HasPrefix(cn, "Getsockopt"):
-					found = true
-					level, _ = constInt(a[1])
-					opt, _ = constInt(a[2])
-				case cn == "Syscall6":
-					found = true
-					level, _ = constInt(a[2])
-					opt, _ = constInt(a[3])
-				}
-			})
+			var scan func(cur *ssa.Function, subst func(ssa.Value) ssa.Value, depth int)
+			scan = func(cur *ssa.Function, subst func(ssa.Value) ssa.Value, depth int) {
+				eachInstr(cur, func(in ssa.Instruction) {
+					call, ok := in.(*ssa.Call)
+					if !ok || call.Call.StaticCallee() == nil {
+						return
+					}
+					callee := call.Call.StaticCallee()
+					if depth > 0 && isHelperOf(cur, callee) {
+						// a shared unexported helper: its parameters stand for this call's arguments
+						site := call
+						scan(callee, func(v ssa.Value) ssa.Value {
+							if q, ok := stripConv(v).(*ssa.Parameter); ok && q.Parent() == callee {
+								for i, hp := range callee.Params {
+									if hp == q && i < len(site.Call.Args) {
+										return subst(site.Call.Args[i])
+									}
+								}
+							}
+							return v
+						}, depth-1)
+						return
+					}
+					if callee.Pkg == nil || callee.Pkg.Pkg.Path() != "syscall" {
+						return
+					}
+					cn := callee.Name()
+					a := call.Call.Args
+					switch {
+					case strings.HasPrefix(cn, "Setsockopt") || strings.HasPrefix(cn, "Getsockopt"):
+						found = true
+						level, _ = constInt(subst(a[1]))
+						opt, _ = constInt(subst(a[2]))
+					case cn == "Syscall6":
+						found = true
+						level, _ = constInt(subst(a[2]))
+						opt, _ = constInt(subst(a[3]))
+					}
+				})
+			}
+			scan(fn, func(v ssa.Value) ssa.Value { return v }, 1)
 			c.check(found && level == ipproto && opt == want[name], fn, "option", fn.Pos(), fmt.Sprintf("level %d option %d", level, opt), fmt.Sprintf("%s uses socket option (level %d, name %d), expected (IPPROTO_IP=%d, %d): the kernel is asked for something other than what the function's name says", name, level, opt, ipproto, want[name]))
 		}
 		// request structs: fields filled from like-named arguments
@@ -426,7 +449,43 @@ func runC12(c *Ctx) {
 				prm[q.Name()] = q
 			}
 			fill := map[string]string{}
+			body := fn
+			isCopy := func(x ssa.Instruction) bool {
+				c2, ok := x.(*ssa.Call)
+				if !ok {
+					return false
+				}
+				b, ok := c2.Call.Value.(*ssa.Builtin)
+				return ok && b.Name() == "copy"
+			}
+			ownCopies := containsDeep(fn, isCopy, 0)
+			// the request may be built by a shared unexported helper: its parameters are named after the arguments passed
 			eachInstr(fn, func(in ssa.Instruction) {
+				if call, ok := in.(*ssa.Call); ok && body == fn && !ownCopies {
+					if h := call.Call.StaticCallee(); isHelperOf(fn, h) && containsDeep(h, func(x ssa.Instruction) bool {
+						c2, ok := x.(*ssa.Call)
+						if !ok {
+							return false
+						}
+						b, ok := c2.Call.Value.(*ssa.Builtin)
+						return ok && b.Name() == "copy"
+					}, 0) {
+						np := map[string]*ssa.Parameter{}
+						for i, hp := range h.Params {
+							if i >= len(call.Call.Args) {
+								continue
+							}
+							for name, q := range prm {
+								if stripConv(call.Call.Args[i]) == ssa.Value(q) {
+									np[name] = hp
+								}
+							}
+						}
+						body, prm = h, np
+					}
+				}
+			})
+			eachInstr(body, func(in ssa.Instruction) {
 				call, ok := in.(*ssa.Call)
 				if !ok {
 					return
